@@ -111,9 +111,9 @@ pub fn run(cases_path: &str, report_path: &str, _opts: &[String]) {
                     rep.fail(&format!("unnamed:{}", class_tail), json!({"case_index": ci, "case": case, "observed": e}));
                 }
             }
-            (Ok(_), "err_named") => {
-                // a required entry that is treated as absent/defaulted is more lenient than required; not a violation of "never a panic"
-                rep.count("required-entry-accepted");
+            (Ok(w), "err_named") => {
+                // "a required entry that refers to such an object is reported as an error naming the entry": reading on as if it were absent hides the damage
+                rep.fail(&format!("accepted:{}", class_tail), json!({"case_index": ci, "case": case, "observed": w}));
             }
             (Err(e), _) => {
                 let class = if e["k"] == "panic" { format!("panic:{}", class_tail) } else { format!("rejected:{}", class_tail) };
